@@ -129,11 +129,14 @@ fn resolve_verdict(source: &str, wit: &[u8], wver: &Option<semver::Version>, com
     let mut packages: IndexMap<BorrowedPackageKey, Vec<u8>> = IndexMap::new();
     packages.insert(BorrowedPackageKey::from_name_and_version("t:w", wver.as_ref()), wit.to_vec());
     packages.insert(BorrowedPackageKey::from_name_and_version("t:c", None), comp.to_vec());
-    match doc.resolve(packages) {
-        Ok(res) => {
-            let bytes = res.encode(EncodeOptions { define_components: true, validate: true, ..Default::default() }).ok();
-            (vec!["ok".into()], bytes)
-        }
+    let resolved = match guarded(std::panic::AssertUnwindSafe(|| {
+        doc.resolve(packages).map(|res| res.encode(EncodeOptions { define_components: true, validate: true, ..Default::default() }).ok())
+    })) {
+        Ok(r) => r,
+        Err(p) => return (vec!["other".into(), esc(&format!("panic: {p}"))], None),
+    };
+    match resolved {
+        Ok(bytes) => (vec!["ok".into()], bytes),
         Err(RErr::ImportNotInTarget { name, .. }) => (vec!["import".into(), esc(&name)], None),
         Err(RErr::MissingTargetExport { name, kind, .. }) => (vec!["missing".into(), esc(&name), esc(&kind)], None),
         Err(RErr::TargetMismatch { kind, name, source, .. }) => (
@@ -153,7 +156,7 @@ fn resolve_verdict(source: &str, wit: &[u8], wver: &Option<semver::Version>, com
 }
 
 #[allow(clippy::too_many_arguments)]
-fn one_case(out: &mut Out, label: &str, target: &Spec, dep: &Spec, imports: &[&str], exports: &[&str], log_ty: &str, run_ret: &str, explicit_log: bool) {
+fn one_case(out: &mut Out, label: &str, target: &Spec, dep: &Spec, imports: &[&str], exports: &[&str], log_ty: &str, run_ret: &str, explicit_log: bool, inline: bool) {
     let wit_text = target.package_text(true);
     let wit_bytes = match wit_bytes(&[("w", &wit_text)]) {
         Ok(b) => b,
@@ -177,14 +180,37 @@ fn one_case(out: &mut Out, label: &str, target: &Spec, dep: &Spec, imports: &[&s
         }
     };
     let wver = version(target.version);
-    let target_path = match target.version {
-        Some(v) => format!("t:w/w@{v}"),
-        None => "t:w/w".to_string(),
+    let target_path = if inline {
+        "x:y/w".to_string()
+    } else {
+        match target.version {
+            Some(v) => format!("t:w/w@{v}"),
+            None => "t:w/w".to_string(),
+        }
+    };
+    // the target world written in the WAC document itself: `import t:w/api` is *not* expanded
+    // with the interfaces it uses, and function / interface items are type items (`promote`)
+    let inline_world = if inline {
+        let vr = |n: &str| match target.version {
+            Some(v) => format!("t:w/{n}@{v}"),
+            None => format!("t:w/{n}"),
+        };
+        let mut w = "world w {\n".to_string();
+        w.push_str(&format!("  import {};\n", vr("api")));
+        if target.explicit_types {
+            w.push_str(&format!("  import {};\n", vr("types")));
+        }
+        w.push_str(&format!("  import log: func(msg: {});\n", target.log_ty));
+        w.push_str(&format!("  export {};\n", vr("out")));
+        w.push_str(&format!("  export run: func(){};\n}}\n", ret(target.run_ret)));
+        w
+    } else {
+        String::new()
     };
     let body = if explicit_log && imports.contains(&"log") {
-        format!("import log: func(msg: {log_ty});\nlet c = new t:c {{ log, ... }};\nexport c...;\n")
+        format!("{inline_world}import log: func(msg: {log_ty});\nlet c = new t:c {{ log, ... }};\nexport c...;\n")
     } else {
-        "let c = new t:c { ... };\nexport c...;\n".to_string()
+        format!("{inline_world}let c = new t:c {{ ... }};\nexport c...;\n")
     };
     let with_targets = format!("package x:y targets {target_path};\n{body}");
     let without = format!("package x:y;\n{body}");
@@ -213,12 +239,18 @@ fn one_case(out: &mut Out, label: &str, target: &Spec, dep: &Spec, imports: &[&s
             return;
         }
     };
-    let out_bytes = match bytes_ok.or_else(|| res.encode(EncodeOptions { define_components: true, validate: true, ..Default::default() }).ok()) {
+    let out_bytes = match bytes_ok {
         Some(b) => b,
-        None => {
-            out.count("gen:encode-failed");
-            return;
-        }
+        None => match res.encode(EncodeOptions { define_components: true, validate: true, ..Default::default() }) {
+            Ok(b) => b,
+            Err(e) => {
+                out.count("gen:encode-failed");
+                if std::env::var("WACV_DEBUG").is_ok() {
+                    eprintln!("encode failed: {e:?}\n{without}");
+                }
+                return;
+            }
+        },
     };
     let mut graph = res.into_graph();
     let gimports: Vec<(String, ItemKind)> = graph.imports().map(|(n, k, _)| (n.to_string(), k)).collect();
@@ -228,16 +260,33 @@ fn one_case(out: &mut Out, label: &str, target: &Spec, dep: &Spec, imports: &[&s
             gexports.push((n.to_string(), node.item_kind()));
         }
     }
-    let wpkg = match Package::from_bytes("t:w", wver.as_ref(), wit_bytes.clone(), graph.types_mut()) {
-        Ok(p) => p,
-        Err(_) => {
-            out.count("gen:world-decode-failed");
-            return;
+    let wid = if inline {
+        let mut found = None;
+        for node in graph.nodes() {
+            if node.name() == Some("w") {
+                if let ItemKind::Type(Type::World(id)) = node.item_kind() {
+                    found = Some(id);
+                }
+            }
         }
-    };
-    let Some(ItemKind::Type(Type::World(wid))) = wpkg.definitions().get("w").copied() else {
-        out.count("gen:no-world");
-        return;
+        let Some(id) = found else {
+            out.count("gen:no-inline-world");
+            return;
+        };
+        id
+    } else {
+        let wpkg = match Package::from_bytes("t:w", wver.as_ref(), wit_bytes.clone(), graph.types_mut()) {
+            Ok(p) => p,
+            Err(_) => {
+                out.count("gen:world-decode-failed");
+                return;
+            }
+        };
+        let Some(ItemKind::Type(Type::World(wid))) = wpkg.definitions().get("w").copied() else {
+            out.count("gen:no-world");
+            return;
+        };
+        wid
     };
     let mut fields = vec![esc(&ser_types(graph.types(), 1)), format!("{wid}"), gimports.len().to_string()];
     for (n, k) in &gimports {
@@ -252,8 +301,15 @@ fn one_case(out: &mut Out, label: &str, target: &Spec, dep: &Spec, imports: &[&s
     fields.extend(rv.clone());
 
     // the stand-alone check on the encoded output (as `wac targets` does)
-    let mut t2 = Types::default();
-    let wit2 = Package::from_bytes("wit", None, wit_bytes.clone(), &mut t2).expect("wit decodes");
+    // (for a world written in the document: the same check on the document's own world)
+    let mut t2 = if inline { graph.types().clone() } else { Types::default() };
+    let w2 = if inline {
+        wid
+    } else {
+        let wit2 = Package::from_bytes("wit", None, wit_bytes.clone(), &mut t2).expect("wit decodes");
+        let Some(ItemKind::Type(Type::World(w2))) = wit2.definitions().get("w").copied() else { return };
+        w2
+    };
     let comp2 = match Package::from_bytes("component", None, out_bytes, &mut t2) {
         Ok(p) => p,
         Err(_) => {
@@ -261,7 +317,6 @@ fn one_case(out: &mut Out, label: &str, target: &Spec, dep: &Spec, imports: &[&s
             return;
         }
     };
-    let Some(ItemKind::Type(Type::World(w2))) = wit2.definitions().get("w").copied() else { return };
     let report = guarded(std::panic::AssertUnwindSafe(|| wac_types::validate_target(&t2, w2, comp2.ty())));
     fields.push(esc(&ser_types(&t2, 2)));
     fields.push(format!("{w2}"));
@@ -320,6 +375,7 @@ fn one_case(out: &mut Out, label: &str, target: &Spec, dep: &Spec, imports: &[&s
     };
     fields.push(oracle);
     out.count(&format!("gen:{label}"));
+    out.count(if inline { "world:inline" } else { "world:wit-package" });
     out.case(true, "tgt", &fields);
 }
 
@@ -419,7 +475,8 @@ fn generate(args: &Args, seed: u64, thorough: bool, shard: usize, nshards: usize
             }
         };
         let explicit_log = r.chance(1, 4);
-        one_case(&mut out, label, &target, &dep, &imports, &exports, log_ty, run_ret, explicit_log);
+        let inline = r.chance(1, 2);
+        one_case(&mut out, label, &target, &dep, &imports, &exports, log_ty, run_ret, explicit_log, inline);
     }
     out.finish();
 }
